@@ -516,6 +516,14 @@ func c12Detach(e *Engine, r *Report, fn *ssa.Function, s ssa.CallInstruction, tn
 			"the request is removed from the table (or the table is stopped) together with the terminal notification",
 			"the request stays in the table after its terminal result: it can be notified twice")
 		c12Mutex(e, r, fn, s, key)
+		// a table that was stopped already terminated everything it holds: later apply /
+		// expiry / drop callbacks must not notify out of it again
+		if tn == "pendingReadIndex" || tn == "proposalShard" {
+			if sf := e.Field("dragonboat", tn, "stopped"); sf != nil && !stoppedBefore {
+				r.guard("GD-no-result-after-stop", key+" (entry of "+mapField.Name()+")", s.(ssa.Instruction),
+					reqBool("table not stopped", fieldV(sf), false))
+			}
+		}
 	case fromQueue || (fromParam && stoppedBefore) || fromParam:
 		// requests that never entered a table (drained queue, add() on a stopped table)
 		guard := stoppedBefore
